@@ -10,7 +10,7 @@ namespace C08
 open Model Model.Qbvh Proto
 
 /-- model variant used for the correspondence: `true` = with the root-split refit fix (see fixes/) -/
-def useFix : Bool := false
+def useFix : Bool := true
 
 inductive POp where
   | ins (id : Nat) (b : Aabb3 Float)
@@ -112,6 +112,10 @@ def stepModel (w : World Float) : POp → Option (World Float × String × Nat)
   | .refit m => (refit w.q w.cur m).map fun r => (⟨r.1, w.cur⟩, "F", r.2)
   | .rebalance _ => none
   | .rebuild _ _ => none
+
+/-- final world of the model, `none` on panic -/
+def finalModel (ops : List POp) : Option (World Float) :=
+  ops.foldlM (fun w op => (stepModel w op).map (·.1)) World.empty
 
 def runModel (ops : List POp) : String := Id.run do
   let mut w : World Float := World.empty
@@ -271,8 +275,60 @@ def runOracle (ops : List POp) (out : List String) : String := Id.run do
     k := k + 1
   return "pass"
 
+def pquery : P (List POp × Aabb3 Float) := do let ops ← plist pop; let b ← pbox; pend; pure (ops, b)
+
+/-- exact overlap of two boxes -/
+def overlapQ (a b : Aabb3 Rat) : Bool :=
+  decide (a.mins.x ≤ b.maxs.x) && decide (b.mins.x ≤ a.maxs.x) &&
+  decide (a.mins.y ≤ b.maxs.y) && decide (b.mins.y ≤ a.maxs.y) &&
+  decide (a.mins.z ≤ b.maxs.z) && decide (b.mins.z ≤ a.maxs.z)
+
+/-- live leaves and their current boxes after a history (from the arguments alone) -/
+def liveAfter (ops : List POp) : List (Nat × Aabb3 Float) :=
+  ops.foldl (fun acc op => match op with
+    | .ins id b => (id, b) :: acc.filter (·.1 != id)
+    | .rem id => acc.filter (·.1 != id)
+    | .rebuild items _ => items.foldl (fun a it => it :: a.filter (·.1 != it.1)) []
+    | _ => acc) []
+
+/-- oracle for `query`: after a history ending with `refit`, `intersect_aabb` must report every live leaf whose
+current box overlaps the query box (brute force over the live leaves), nothing dead, nothing twice -/
+def queryOracle (ops : List POp) (b : Aabb3 Float) (out : List String) : String :=
+  match out with
+  | "PANIC" :: _ => "fail panic"
+  | _ =>
+    match out.mapM String.toNat? with
+    | none => "fail unparsable-output"
+    | some ids =>
+      let live := liveAfter ops
+      let refitLast := match ops.getLast? with
+        | some (.refit _) => true
+        | _ => false
+      if !refitLast then "skip history-does-not-end-with-refit"
+      else if ids.eraseDups.length != ids.length then "fail leaf-reported-twice"
+      else match ids.find? (fun i => !(live.any (·.1 == i))) with
+        | some i => s!"fail dead-leaf-reported {i}"
+        | none =>
+          match live.find? (fun (i, bx) => overlapQ (qbox bx) (qbox b) && !ids.contains i) with
+          | some (i, _) => s!"fail overlapping-leaf-missed {i}"
+          | none => "pass"
+
 def handler (fn : String) : Option Handler :=
   match fn with
+  | "query" => some {
+      model := fun a => (run pquery a).map fun (ops, b) =>
+        match (finalModel ops).bind fun w => intersectAabb w.q b with
+        | some ids => " ".intercalate (ids.map toString)
+        | none => "PANIC"
+      oracle := fun a o => match run pquery a with
+        | some (ops, b) => queryOracle ops b o
+        | none => "skip bad-args" }
+  | "histo" => some {
+      -- histories with `rebalance` / `clear_and_rebuild`: not modelled; the invariant oracle judges the dumped Rust states
+      model := fun _ => some "-"
+      oracle := fun a o => match run phist a with
+        | some ops => runOracle ops o
+        | none => "skip bad-args" }
   | "hist" => some {
       model := fun a => (run phist a).map runModel
       oracle := fun a o => match run phist a with
